@@ -70,6 +70,14 @@ def plan(tier, seed):
 # ---------------------------------------------------------------------------
 # OptimizeTap
 # ---------------------------------------------------------------------------
+class InjectedSolverFailure(RuntimeError):
+    pass
+
+
+_TIER = ["thorough"]
+_FAULT = {"armed": False, "at": 0, "seen": 0, "kind": "raise", "fired": False}
+
+
 def install_tap():
     import optlang.interface as oi
 
@@ -78,6 +86,16 @@ def install_tap():
     orig = oi.Model.optimize
 
     def optimize(self, *a, **k):
+        if _FAULT["armed"]:
+            # failpoint: the k-th solve of the analysis fails (solver error) or comes back without an optimum
+            _FAULT["seen"] += 1
+            if _FAULT["seen"] == _FAULT["at"]:
+                _FAULT["fired"] = True
+                if _FAULT["kind"] == "raise":
+                    raise InjectedSolverFailure("injected: the solver failed")
+                orig(self, *a, **k)
+                self._status = _FAULT["kind"]
+                return _FAULT["kind"]
         m = _TAP["model"]
         if _TAP["armed"] and m is not None and m.solver is self:
             acc = _TAP["acc"]
@@ -324,6 +342,8 @@ def run_case(base, case, acc, A):
                 ok = False
                 break
         _TAP["armed"] = False
+        if ok and procs == 1:
+            ok = inject_solver_faults(acc, fn, name, m_use, a2, before, ident, wrec, base, case)
         if _TAP["problems"]:
             acc.violation(f"C13/{name}/core-fba-problem-broken-during-solve", f"during {name} a solve ran on a problem whose core is not the model's FBA problem: {_TAP['problems'][0]}", dict(ident, problems=_TAP["problems"], start_recipe=wrec))
             ok = False
@@ -369,6 +389,63 @@ def run_case(base, case, acc, A):
             acc.nontrivial(name, cls, h([a2.get("rxns"), procs]), in_ctx)
     if case < 2:
         acc.sample({"model_class": cls, "analyses": chosen, "n_reactions": len(rids)})
+
+
+def inject_solver_faults(acc, fn, name, m_use, a2, before, ident, wrec, base, case):
+    """'... or raises': the same call again with the k-th solve failing - once by a solver error, once by
+    coming back 'infeasible', once 'undefined' - at a seeded position k.  The model must be what it was."""
+    frng = gen.rng_for("C13fault", base, case, name)
+    # how many solves does the call make?
+    _FAULT.update(armed=True, at=-1, seen=0, kind="raise", fired=False)
+    try:
+        with warnings.catch_warnings():
+            warnings.simplefilter("ignore")
+            fn(m_use, gen.rng_for("C13fault-count", base, case, name), a2)
+    except Exception:
+        pass
+    n = _FAULT["seen"]
+    _FAULT["armed"] = False
+    if n == 0:
+        acc.count("fault_injection_calls_without_a_solve")
+        return True
+    kinds = ["raise", "infeasible", "undefined"]
+    if _TIER[0] == "quick":  # one kind per call in the quick tier (seeded rotation), all three in the thorough one
+        kinds = [frng.choice(kinds)]
+    for kind in kinds:
+        k = frng.choice(sorted({1, n, frng.randint(1, n)}))
+        _FAULT.update(armed=True, at=k, seen=0, kind=kind, fired=False)
+        outcome = "returned"
+        acc.journal(dict(ident, about_to_run=name, injected=[kind, k, n]))
+        try:
+            with warnings.catch_warnings():
+                warnings.simplefilter("ignore")
+                fn(m_use, gen.rng_for("C13fault-count", base, case, name), a2)
+        except InjectedSolverFailure:
+            outcome = "propagated"
+        except Exception as e:
+            outcome = "raised " + type(e).__name__
+        finally:
+            _FAULT["armed"] = False
+        if not _FAULT["fired"]:
+            acc.count("fault_injection_position_not_reached")
+            continue
+        acc.ev()
+        acc.count("solver_faults_injected")
+        acc.add("fault_outcomes", f"{kind}:{outcome.split(' ')[0]}")
+        try:
+            d = observe.snapshot_diff(before, observe.snapshot(m_use), lp_rel=0.0, config=True)
+        except Exception as e:
+            d = [f"state unreadable after the call: {type(e).__name__}: {str(e)[:160]}"]
+        if d:
+            from cv.props.c03 import _diff_class
+
+            acc.violation(
+                f"C13/{name}/model-modified-after-a-failing-solve/{_diff_class(d[0])}/{'solver-error' if kind == 'raise' else 'no-optimum'}",
+                f"{name} with solve {k} of {n} {'raising a solver error' if kind == 'raise' else 'coming back ' + kind} ({outcome}) left the model modified: {d[0]}",
+                dict(ident, diffs=d[:8], injected={"kind": kind, "at": k, "of": n}, outcome=outcome, start_recipe=wrec),
+            )
+            return False
+    return True
 
 
 def _same(a, b):
@@ -458,6 +535,7 @@ def run_probe(pr, acc):
 
 
 def run_shard(desc, acc):
+    _TIER[0] = desc.get("tier", "thorough")
     if desc.get("kind") == "probes":
         for pr in desc["probes"]:
             run_probe(pr, acc)
